@@ -39,7 +39,7 @@ type Case struct {
 
 func setup() {
 	c := ev.C()
-	c.Rule = "pairs of reference-closed RIBs built at the rib API (forward references disallowed, no flush) from a shared rapid-drawn base history plus an independent extension each, over DEFAULT + {VRF-A,VRF-B} where the intended RIB's instances are a subset of the target's; id base from boundaries. Oracle (round trip): the reconciler's operations are applied to the live target with reference checking on in the documented order (Add NH,NHG,top; Replace NH,NHG,top; Delete top,NHG,NH); every operation must be acknowledged by its own call, afterwards RIBContents(target)==RIBContents(intended) in every NI of either side (absent==empty), a second reconcile is empty, ids are exactly base+1..base+n. Non-trivial = the pair needs >=1 add, >=1 replace and >=1 delete, or the target has an NI the intended RIB lacks; distinct by FNV-64 of the case JSON."
+	c.Rule = "pairs of reference-closed RIBs built at the rib API (forward references disallowed, no flush) from a shared rapid-drawn base history plus an independent extension each, over DEFAULT + {VRF-A,VRF-B} where the intended RIB's instances are a subset of the target's; id base from boundaries. Oracle (round trip): the reconciler's operations are applied to the live target with reference checking on in the documented order (Add NH,NHG,top; Replace NH,NHG,top; Delete top,NHG,NH); every operation must be acknowledged by its own call, afterwards RIBContents(target)==RIBContents(intended) in every NI of either side (absent==empty), a second reconcile is empty, ids are exactly base+1..base+n. Non-trivial = the pair needs >=1 add, >=1 replace and >=1 delete, or the target has an NI the intended RIB lacks; distinct by FNV-64 of the case JSON. Later additions: two spellings of one prefix in the key universes; large-tables scope (up to 2049 entries per table on either side)."
 	c.Assumptions = []string{"input RIBs are reference-closed and hold no pending operations (by construction)", "every network instance of the intended RIB exists on the target"}
 }
 
